@@ -283,7 +283,15 @@ def _build_query(ob, base, goal, insts, seen_inst, rounds):
             more = []
             if u.decls:
                 for d in u.decls:
-                    for args in list(V.APPS.get(d.name(), {}).values()):
+                    tab = list(V.APPS.get(d.name(), {}).values())
+                    if getattr(u, "pairs", False):
+                        singles = [a[0] for a in tab if len(a) == 1]
+                        for x in singles:
+                            for y in singles:
+                                if not x.eq(y):
+                                    more.append((x, y))
+                        continue
+                    for args in tab:
                         if len(args) == u.arity:
                             more.append(args)
             if u.arity == 1 and u.generic:
